@@ -83,6 +83,7 @@ class Renderer:
         if s["body"] == "send": return "#%s { 0 s%dr1, Ok }" % (ty, sid)
         if s["body"] == "fail": return "#%s { [1, 0] __integer_divide__, Ok }" % ty
         if s["body"] == "effect": return "#%s { [0x2f78, 0, 0] __file_open__, Ok }" % ty    # an effect builtin inside the filter
+        if s["body"] == "effect_fail": return "#%s { [0x2178, 0, 0] __file_open__, Ok }" % ty   # ... whose operation fails ('!x')
         if s["body"] == "builtin": return "&__integer_add__"
         branches = " ".join("| =%s => Ok" % q_val(v) for v in s["acc"]) or "| []"
         return "#%s { %s }" % (ty, branches)
